@@ -17,7 +17,7 @@ RULE = ("Bool-typed filters of the SQLite fragment from the typed grammar (field
         "strings with ' % _ \\ \" ; --). Oracle: SELECT id FROM item WHERE <emitted clause> on real SQLite vs "
         "the reference evaluator, on decided rows only; an sqlite3 error or a library refusal is a violation. "
         "Non-trivial: >= 2 operator/function nodes and >= 1 decided row; distinct by (filter text, rows)."
-        " Plus a value-level sweep: for every arithmetic operator pair in both nestings (and unary minus / indexof / length templates as operands) E and every value v that E takes on a fixed 12-row table, the filter `E eq v` must select exactly the rows where E = v. Rows get 'confuser' strings derived from the literal needles of contains/startswith/endswith (needle embedded, % replaced by text, _ by one character, escape characters dropped). Integer div/mod are decided with truncation / dividend-sign semantics. Every case is followed by metamorphic companions in which one row's own integer values replace the Int columns: that row must fare alike (decides what the reference leaves open).")
+        " Plus a value-level sweep: for every arithmetic operator pair in both nestings (and unary minus / indexof / length templates as operands) E and every value v that E takes on a fixed 12-row table, the filter `E eq v` must select exactly the rows where E = v. Rows get 'confuser' strings derived from the literal needles of contains/startswith/endswith (needle embedded, % replaced by text, _ by one character, escape characters dropped). Integer div/mod are decided with truncation / dividend-sign semantics. Every case is followed by metamorphic companions in which one row's own integer values replace the Int columns: that row must fare alike, whatever the reading of div and mod.")
 ASSUMPTIONS = [
     "PRAGMA case_sensitive_like=ON (LIKE case folding is an engine setting of the caller)",
     "datetimes are stored as 'YYYY-MM-DD HH:MM:SS' UTC text, dates as 'YYYY-MM-DD'",
@@ -94,7 +94,7 @@ def check_case(case, fenced=True):
     if bad:
         return (bad[0], "%r -> WHERE %s ; %s" % (text, sql, bad[1]))
     # metamorphic companion: the row's own integer values written as literals must not change the row's fate
-    # (this also decides rows the reference leaves open: negative mod, inexact division)
+    # (needs no reading of div and mod, so it also covers rows on which the reference abstains)
     ran = skipped = 0
     for i, t2 in semcheck.literalised(t, case["rows"], case.get("style_seed", 0)):
         text2 = printer.render(t2, style_of(case))
